@@ -36,7 +36,7 @@ structure Mon where
   t0 : Nat := 0                -- when the current wait began
   acc : Bytes := []            -- delivered since the current wait began
   hit : Option Nat := none     -- when `acc` first ended with the awaited text (at a delivery)
-  lastT : Nat := 0             -- time of the latest event
+  lastT : Nat := 0             -- time of the latest event (after a `^C`: the end of the sleep that follows it)
   ulog : List Char := []       -- text delivered while the U-Boot startup event was attached
   llog : List Char := []       -- … the Linux startup event
   ubSet : Bool := false        -- the U-Boot startup event was entered: `bootlog` gets set
@@ -134,7 +134,7 @@ def step (c : Board.Case) (m : Mon) : Ev → Option Mon
       match c.ub with
       | some u => if b == [3] && m.hit == none && t == m.t0 + Params.ubootPollRead
                      && within u.timeout m.start (t - Params.ubootPollRead)
-                  then some (wait .ubLoop t (t + Params.ubootPollSleep) m) else none
+                  then some (wait .ubLoop (t + Params.ubootPollSleep) (t + Params.ubootPollSleep) m) else none
       | none => none
     | .ubUp =>
       if c.lnx.isSome && b == bootLine && t == m.lastT then some (wait .bootSent t t m) else none
